@@ -102,11 +102,11 @@ impl Transaction {
     #[verifier::external_body]
     pub fn empty() -> (r: Transaction)
         ensures tx_kernels(r) == Seq::<TxKernelFull>::empty(), body_outputs(r.body) == Seq::<Output>::empty(), body_inputs(r.body) is None,
-            tx_num_inputs(r) == 0, tx_num_outputs(r) == 0
+            tx_num_inputs(r) == 0, tx_num_outputs(r) == 0, tx_parts(r) == Seq::<PartSpec>::empty()
     { unimplemented!() }
     #[verifier::external_body]
     pub fn with_kernel(self, k: TxKernelFull) -> (r: Transaction)
-        ensures tx_kernels(r) == tx_kernels(self).push(k), body_inputs(r.body) == body_inputs(self.body), body_outputs(r.body) == body_outputs(self.body), r.offset == self.offset
+        ensures tx_kernels(r) == tx_kernels(self).push(k), body_inputs(r.body) == body_inputs(self.body), body_outputs(r.body) == body_outputs(self.body), r.offset == self.offset, tx_parts(r) == tx_parts(self)
     { unimplemented!() }
     #[verifier::external_body]
     pub fn validate(&self, w: Weighting) -> (r: Result<(), transaction::Error>) ensures (r is Ok) == tx_valid_w(*self, w) { unimplemented!() }
@@ -151,7 +151,9 @@ impl TransactionBody {
     #[verifier::external_body]
     pub fn replace_inputs(self, inputs: Inputs) -> (r: TransactionBody)
         ensures body_inputs(r) == inputs_view(inputs), body_outputs(r) == body_outputs(self), body_kernels(r.t) == body_kernels(self.t),
-            body_num_inputs(r.t) == inputs.spec_len(), body_num_outputs(r.t) == body_num_outputs(self.t) { unimplemented!() }
+            body_num_inputs(r.t) == inputs.spec_len(), body_num_outputs(r.t) == body_num_outputs(self.t),
+            // replacing no inputs by no inputs leaves what the body was built from
+            (inputs.spec_len() == 0 && body_num_inputs(self.t) == 0) ==> body_parts(r.t) == body_parts(self.t) { unimplemented!() }
     #[verifier::external_body]
     pub fn replace_outputs(self, outputs: &[Output]) -> (r: TransactionBody)
         ensures body_outputs(r) == outputs@, body_inputs(r) == body_inputs(self), body_kernels(r.t) == body_kernels(self.t),
